@@ -16,7 +16,7 @@ RULE = ("three case kinds: (history) any documented constructor configuration in
         "BrownianInterval(tol>0) / adaptive with drawn (T, dt, dtype), including grids whose last step is a rounding "
         "remainder and step counts around the 100-query warm-up. Oracle: every call returns (only ta>tb may raise "
         "RuntimeError), under a recursion limit of current depth + 250 frames, with len(cache) <= cache_size after every "
-        "call and fewer than 2e5 tree nodes created per call. Non-trivial = more than 150 queries, or a query shorter "
+        "call, fewer than 2e5 tree nodes created and fewer than 4e6 tree-search steps per call. Non-trivial = more than 150 queries, or a query shorter "
         "than tol, or cache_size in {0,1}; distinct = distinct canonical case JSON.")
 ASSUMPTIONS = ["non-termination is decided by a deterministic node-creation budget (2e5 per call), never by a clock",
                "stack growth is decided by running under sys.setrecursionlimit(depth_at_call + 250)",
@@ -68,7 +68,17 @@ def _sweep_case(draw, tier):
     if cfg["cache_size"] in (0, 1, 2):     # every query recomputes its whole ancestor chain: keep the cost bounded
         hi = 4 if tier == "thorough" else 3.3
     n = int(10 ** draw(st.floats(3.0, hi)))
-    return {"kind": "sweep", "cfg": cfg, "n": n, "back": draw(st.booleans()),
+    back = draw(st.booleans())
+    if draw(st.sampled_from([True, False, False])):
+        # a dt hint much coarser than the steps actually taken: a whole run of steps then lives in one bottom piece of the
+        # dependency tree, and walking back through it is the deepest chain of uncached ancestors the structure can have
+        cfg["dt"] = (cfg["t1"] - cfg["t0"]) / draw(st.sampled_from([4, 16]))
+        cfg["halfway"] = False
+        cfg["tol"] = 0.0
+        cfg["cache_size"] = draw(st.sampled_from([1, 5, 45]))
+        n = min(n, 3000)
+        back = True
+    return {"kind": "sweep", "cfg": cfg, "n": n, "back": back,
             "frac": draw(st.sampled_from([1.0, 1.0, 0.5, 0.1]))}
 
 
@@ -137,6 +147,9 @@ def _classify(e, where_sig):
     return crash_fail(e, where_sig)
 
 
+_MAX_SEARCH = [0]
+
+
 def _run_queries(cfg, queries, sig):
     """Returns (fail_or_None, checks, max_nodes_per_call, max_cache)."""
     import torchsde
@@ -145,6 +158,7 @@ def _run_queries(cfg, queries, sig):
     max_nodes = 0
     max_cache = 0
     with brownian_tools.node_budget(NODE_BUDGET) as counter, _Guard():
+        max_search = _MAX_SEARCH
         try:
             bm, interval, meta = history.build(cfg, torchsde, torch)
         except Exception as e:  # noqa
@@ -158,6 +172,7 @@ def _run_queries(cfg, queries, sig):
                 return f, checks, max_nodes, max_cache
             checks += 1
             max_nodes = counter["max_per_call"]
+            max_search[0] = counter["max_search_per_call"]
             w = out[0]
             if not bool(torch.isfinite(w).all()):
                 return Fail("non_finite_value", f"query #{idx} ({a!r}, {b!r}) returned non-finite W", sig), checks, \
@@ -209,7 +224,7 @@ def run_case(case):
     nontrivial = len(queries) > 150 or subtol or cfg["cache_size"] in (0, 1)
     return Result(nontrivial=nontrivial, labels=labels, checks=checks, fail=fail,
                   metrics={"max_nodes_created_per_call": max_nodes, "max_cache_entries": max_cache,
-                           "max_queries": len(queries)})
+                           "max_queries": len(queries), "max_search_steps_per_call": _MAX_SEARCH[0]})
 
 
 class _TrivialSDE(torch.nn.Module):
@@ -284,7 +299,7 @@ def finalize(tier, seed, stats):
     import torchsde
     from .. import machine
     n, steps = (40, 40) if tier == "quick" else (1200, 80)
-    viol, cov = machine.run(torchsde, ID, seed, n, steps)
+    viol, cov = machine.run(torchsde, ID, seed, n, steps, shrink=(tier == "thorough"))
     if viol is not None and viol["clause"].startswith(MACHINE_CLAUSES):
         stats.violations.append({"case": viol["case"], "shrunk": True,
                                  "fail": {"clause": "state_machine:" + viol["clause"], "msg": viol["msg"], "sig": {}}})
